@@ -107,6 +107,10 @@ pub struct SendObs {
 }
 
 /// A user-defined streaming body: the `programs` quantifier of C07.
+/// Content type that marks a caller's `Body` whose `write` produces its data only once (a user-defined
+/// streaming body that cannot be rewound): the library cannot replay it; the model's `bodyRewindable = false`.
+pub const ONE_SHOT: &str = "application/x-one-shot";
+
 pub struct CustomBody {
     pub kind: CustomKind,
     pub ctype: Option<String>,
@@ -122,7 +126,9 @@ impl attohttpc::body::Body for CustomBody {
         })
     }
     fn write<W: Write>(&mut self, mut writer: W) -> std::io::Result<()> {
-        for w in &self.writes {
+        let once = self.ctype.as_deref() == Some(ONE_SHOT);
+        let writes = if once { std::mem::take(&mut self.writes) } else { self.writes.clone() };
+        for w in &writes {
             // a single `write` call per slice (zero-length slices included): the sink accepts everything
             let n = writer.write(w)?;
             if n < w.len() {
@@ -275,7 +281,8 @@ impl SendCase {
             BodyR::Multipart { .. } => {
                 let w = dechunk(&first_body).map(|p| p.0).unwrap_or_default();
                 let ct = obs.prepared_headers.iter().find(|(n, _)| n == "content-type").map(|(_, v)| String::from_utf8_lossy(v).to_string());
-                ("C".into(), ct, false, w)
+                // the form is serialized again, with the boundary already announced, on every hop
+                ("C".into(), ct, true, w)
             }
             BodyR::Custom { kind, ctype, writes } => (
                 match kind {
@@ -284,7 +291,7 @@ impl SendCase {
                     CustomKind::Chunked => "C".into(),
                 },
                 ctype.clone(),
-                true,
+                ctype.as_deref() != Some(ONE_SHOT),
                 writes.clone(),
             ),
         };
